@@ -148,6 +148,21 @@ def scanner(rep, f, c, labels):
     rep.ob('C13-O4.capacity', 'scratch array', N >= maxlen, 'scratch array (%d) shorter than the longest label (%d)' % (N, maxlen), site,
            {'array_len': N, 'longest_label': maxlen}, c)
     nexts = [bi for bi, t in b.calls() if (b.callee(t) or '').endswith('Iterator>::next')]
+    # a phase that only skips (leading whitespace) may be written iter.find(|b| !skip(b)): a fetch whose Some payload is known to
+    # satisfy the closure's predicate, every other byte having been skipped
+    finds = {}
+    for bi, t in b.calls():
+        if (b.callee(t) or '').endswith('::find') and len(t['args']) == 2:
+            clos_ = Resolver(b).operand(t['args'][1])
+            if clos_[0] == 'agg' and clos_[1] == 'closure' and len(clos_) == 4 and f.body(clos_[3]) is not None and f.body(clos_[3]).arg_count == 2:
+                cb_ = f.body(clos_[3])
+                x2 = ('loc', 2)
+                ra_ = RangeAnalysis(f, cb_, {x2, ('deref', x2), ('deref', ('deref', x2))}, 8, BYTE)
+                if not ra_.mixed:
+                    ts_, fs_, us_ = ra_.return_value().truth_set()
+                    if not us_:
+                        finds[bi] = ts_
+    nexts = nexts + sorted(finds)
     rep.ob('C13-O4.phases', 'phases', len(nexts) == 3, 'expected three scanning phases, found %d' % len(nexts), site, {'phases': len(nexts)}, c)
     if len(nexts) != 3:
         return
@@ -192,7 +207,8 @@ def scanner(rep, f, c, labels):
             rep.undecidable('C13-O4', '%s:phase%d' % (fn, k + 1), 'cannot find Some/None arms of next()', sp_str(b.blocks[nb]['tsp']), c)
             return
         xkey = ('deref', ('fld', ('as', r.local(res_local), 'Some'), '0'))
-        ra = RangeAnalysis(f, b, {xkey}, 8, BYTE, entries=[some], stop=set(nexts) | set(search))
+        dom_k = finds.get(nb, BYTE)
+        ra = RangeAnalysis(f, b, {xkey}, 8, dom_k, entries=[some], stop=set(nexts) | set(search))
         if ra.mixed:
             rep.undecidable('C13-O4', '%s:phase%d' % (fn, k + 1), 'byte classification is not a pure comparison tree: %r' % (ra.mixed[:1],),
                             sp_str(b.blocks[some]['tsp']), c)
@@ -247,6 +263,8 @@ def scanner(rep, f, c, labels):
                 else:
                     store_other = store_other | s
         to = {j: ra.reach_of(nb2) for j, nb2 in enumerate(nexts)}
+        if nb in finds:
+            to[k] = to[k] | (BYTE - finds[nb])         # what find() passed over without stopping: skipped, the phase goes on
         to_search = ra.reach_of(search[0])
         # where does the None arm (end of input) lead?
         none_reach = b.reach_from([none], stop=set(nexts) | set(search))
@@ -312,7 +330,7 @@ def scanner(rep, f, c, labels):
         rs = Resolver(b)
         pos_defs.append((bi, rs.rvalue(node['rv'])))
     ok_defs = all(e in (('c', 0, 'usize'), ('c', 1, 'usize'), ('bin', 'Add', ('loc', Pz), ('c', 1, 'usize'))) for _, e in pos_defs)
-    ob('index.updates', ok_defs and any(e == ('c', 0, 'usize') and bi == 0 for bi, e in pos_defs),
+    ob('index.updates', ok_defs and (any(e == ('c', 0, 'usize') and bi == 0 for bi, e in pos_defs) or (bool(finds) and any(e == ('c', 1, 'usize') for bi, e in pos_defs))),
        'trimmed_pos is updated other than by =0 (entry), =1, +=1: %r' % [expr_str(e, b) for _, e in pos_defs])
     cut = None
     for bi, (idx, st) in sorted(stores.items()):
@@ -326,6 +344,9 @@ def scanner(rep, f, c, labels):
             rd = reaching_defs(b, Pz)[bi]
             rd_vals = [e for bj, e in pos_defs if any(d[0] == bj for d in rd)]
             ok = ok_idx and nxt == [('c', 1, 'usize')] and rd_vals == [('c', 0, 'usize')]
+            if not ok and ie == ('c', 0, 'usize'):
+                # trimmed[0] = first; let mut trimmed_pos = 1;
+                ok = nxt == [('c', 1, 'usize')] and not [d for d in rd if d[0] != 'arg']
             rep.ob('C13-O4.index.p1', '%s:store@phase1' % fn, ok, 'phase-1 store is not trimmed[0] followed by trimmed_pos = 1',
                    sp_str(st['sp']), None, c)
         else:
@@ -392,6 +413,14 @@ def scanner(rep, f, c, labels):
 
 def comparator(rep, f, c):
     fn = 'Encoding::for_label::{closure#0}'
+    # the closure handed to binary_search_by, whatever its number (other closures may precede it in the function)
+    pb = f.body('Encoding::for_label')
+    if pb is not None:
+        for bi_, t_ in pb.calls():
+            if 'binary_search_by' in (pb.callee(t_) or '') and len(t_['args']) == 2:
+                cl_ = Resolver(pb).operand(t_['args'][1])
+                if cl_[0] == 'agg' and cl_[1] == 'closure' and len(cl_) == 4:
+                    fn = cl_[3]
     b = f.body(fn)
     if b is None:
         rep.undecidable('C13-O2', fn, 'comparator closure not found', None, c)
